@@ -700,6 +700,15 @@ func ruleC04Rollover(r *Run, p *Program, rule string) {
 		r.check(in, rule, funcKey(nd.Ctx.Fn)+":curSeg-store", p.Pos(st.Pos()), "the current segment is replaced only by swapSegment (existing unfilled segment first, else a new one)", "the write path installs a new current segment without going through swapSegment: an existing unfilled segment (the newest one after a recovery) stays unsealed, Close persists two unfilled segments, the next session appends to the older one and a later recovery replays its newest writes first")
 	}
 	r.universe(rule, n, 2)
+	// the log moves on at most once per record: sealing / swapping is not repeated in a loop (a record larger than a whole
+	// segment gets a segment of its own instead of exhausting the segment ids)
+	inLoop := false
+	instrsOf(f, func(in ssa.Instruction) {
+		if c, ok := in.(*ssa.Call); ok && (calleeKey(&c.Call) == "(*pogreb.datalog).swapSegment" || sealers(p)[calleeKey(&c.Call)]) && inCycle(c.Block()) {
+			inLoop = true
+		}
+	})
+	r.check(!inLoop, rule, funcKey(f)+":rollover-once", p.Pos(f.Pos()), "writeRecord seals/swaps at most once per record", "writeRecord repeats the rollover in a loop: for a record that does not fit an empty segment (admissible with a small segment size) it creates segment after segment until the ids are exhausted and the Put fails")
 	// swapSegment looks for an existing unfilled segment before creating one
 	if g := p.Fn("(*pogreb.datalog).swapSegment"); r.anchor(rule, "(*pogreb.datalog).swapSegment", g != nil) {
 		var creates []ssa.Instruction
